@@ -273,7 +273,7 @@ fn corpus_paths(rep: &Report) {
 pub fn check(rep: &Report) {
     corpus_paths(rep);
     let t = crate::thorough(&rep.tier);
-    rep.rule("one feature-rich workbook per format (3 sheets incl. a chart sheet / hidden sheet, shared strings, 1-D and 2-D shared formulas, dates, two merged regions, a table, a VBA project, a defined name, a gap row); call alphabet = 13 Reader calls (ranges by name / index / unknown name, worksheets(), formulas, vba_project, metadata) + 3 header-row settings + the format's own calls (range_ref, merge cells, merged regions, tables); every call sequence of depth <= 3 (thorough 5) replayed on a fresh reader; oracle: each result equals the same call made first on a fresh reader under the option in force; plus access-path agreement (also over every workbook under the repository's tests/ directory that opens) and auto-detected reader == own reader; a state = a distinct call prefix; non-trivial = sequence of length >= 2");
+    rep.rule("one feature-rich workbook per format (3 sheets incl. a chart sheet / hidden sheet, shared strings, 1-D and 2-D shared formulas, dates, two merged regions, a table, a VBA project, a defined name, a gap row); call alphabet = 13 Reader calls (ranges by name / index / unknown name, worksheets(), formulas, vba_project, metadata) + 3 header-row settings + the format's own calls (range_ref, merge cells, merged regions, tables); every call sequence of depth <= 3 (thorough 5) replayed on a fresh reader; oracle: each result equals the same call made first on a fresh reader under the option in force; plus access-path agreement under the default and under explicit header rows (also over every workbook under the repository's tests/ directory that opens) and auto-detected reader == own reader; a state = a distinct call prefix; non-trivial = sequence of length >= 2");
     rep.assume("results are compared through their Debug / digest rendering; error values by their first 80 characters");
     let depth = if t { 5 } else { 3 };
     let results: Vec<(u64, u64)> = FORMATS.par_iter().map(|fmt| {
@@ -313,6 +313,17 @@ pub fn check(rep: &Report) {
             }
             if ws.iter().any(|(wn, _)| !names.contains(wn)) { out.push(("worksheets-extra-sheet".to_string(), format!("{:?}", ws.iter().map(|w| &w.0).collect::<Vec<_>>()))); }
             if wb.worksheet_range_at(names.len()).is_some() { out.push(("range_at-past-end".to_string(), "range_at(len) is Some".into())); }
+            // the same under an explicit header row: the option governs every way of reading a sheet
+            for row in [3u32, 0] {
+                wb.with_header_row(HeaderRow::Row(row));
+                for (i, n) in names.iter().enumerate() {
+                    let a = rd(wb.worksheet_range(n).map_err(es));
+                    let at = match wb.worksheet_range_at(i) { Some(r) => rd(r.map_err(es)), None => "None".into() };
+                    if a != at { out.push((format!("range-vs-range_at/under-Row({row})"), format!("sheet #{i} {n}: range={a} range_at={at}"))); }
+                }
+                // (worksheets() is compared under the default option only: that is all the statement promises for it)
+            }
+            wb.with_header_row(HeaderRow::FirstNonEmptyRow);
             // near misses of every real name are unknown names: other letter case, surrounding blanks, one character more or less
             for n in &names {
                 let mut vs = vec![n.to_uppercase(), n.to_lowercase(), format!("{n} "), format!(" {n}"), format!("{n}x"), n.chars().skip(1).collect::<String>(), n.chars().take(n.chars().count().saturating_sub(1)).collect::<String>()];
@@ -335,6 +346,17 @@ pub fn check(rep: &Report) {
                 if a != r { out.push(("range-vs-range_ref".to_string(), format!("sheet {n}: range={a} range_ref={r}"))); }
                 if a != at { out.push(("range-vs-range_at_ref".to_string(), format!("sheet #{i} {n}: range={a} range_at_ref={at}"))); }
             }
+            for row in [3u32, 0] {
+                wb.with_header_row(HeaderRow::Row(row));
+                for (i, n) in names.iter().enumerate() {
+                    let a = rd(wb.worksheet_range(n).map_err(es));
+                    let r = rd(wb.worksheet_range_ref(n).map(|r| range_ref_to_data(&r)).map_err(es));
+                    let at = match wb.worksheet_range_at_ref(i) { Some(r) => rd(r.map(|r| range_ref_to_data(&r)).map_err(es)), None => "None".into() };
+                    if a != r { out.push((format!("range-vs-range_ref/under-Row({row})"), format!("sheet {n}: range={a} range_ref={r}"))); }
+                    if a != at { out.push((format!("range-vs-range_at_ref/under-Row({row})"), format!("sheet #{i} {n}: range={a} range_at_ref={at}"))); }
+                }
+            }
+            wb.with_header_row(HeaderRow::FirstNonEmptyRow);
             out
         }
         let pa = guarded(|| -> Result<Vec<(String, String)>, String> {
